@@ -53,7 +53,18 @@ func c20ops() []c20op {
 			return fmt.Sprintf("%x %v", m, err)
 		}},
 		{"NGAP-encode-decode", func(ue int) string {
-			b, err := tglib.GetUplinkNASTransport(int64(1000+ue), int64(ue+1), msg(ue, 12))
+			// a different message type per UE (shared struct types such as InitiatingMessage / SuccessfulOutcome then carry
+			// different procedure codes and IE ids in the two threads)
+			var b []byte
+			var err error
+			switch ue % 3 {
+			case 0:
+				b, err = tglib.GetUplinkNASTransport(int64(1000+ue), int64(ue+1), msg(ue, 12))
+			case 1:
+				b, err = tglib.GetInitialUEMessage(int64(ue+1), msg(ue, 20), "")
+			default:
+				b, err = tglib.GetPDUSessionResourceSetupResponse(int64(1000+ue), int64(ue+1), 5, "10.0.0.7")
+			}
 			if err != nil {
 				return err.Error()
 			}
@@ -65,13 +76,28 @@ func c20ops() []c20op {
 			return fmt.Sprintf("%x %v %v", b, bytes.Equal(re, b), err)
 		}},
 		{"NAS-plain-codec", func(ue int) string {
-			b := nasTestpacket.GetAuthenticationResponse(msg(ue, 16), "")
+			var b []byte
+			switch ue % 3 {
+			case 0:
+				b = nasTestpacket.GetAuthenticationResponse(msg(ue, 16), "")
+			case 1:
+				b = nasTestpacket.GetUlNasTransport_PduSessionEstablishmentRequest(5, 1, "internet", nil)
+			default:
+				b = nasTestpacket.GetSecurityModeComplete(msg(ue, 30))
+			}
 			m := nas.NewMessage()
 			if err := m.PlainNasDecode(&b); err != nil {
 				return err.Error()
 			}
 			re, err := m.PlainNasEncode()
-			return fmt.Sprintf("%x %v", re, err)
+			// the bytes are looked at only after a second, different encode has used the codec again (a result that
+			// aliases a recycled buffer changes under the caller's feet)
+			m2 := nas.NewMessage()
+			b2 := nasTestpacket.GetRegistrationComplete(nil)
+			if err2 := m2.PlainNasDecode(&b2); err2 == nil {
+				m2.PlainNasEncode()
+			}
+			return fmt.Sprintf("%x %v %v", re, bytes.Equal(re, b), err)
 		}},
 		{"NASEncode(NIA1,NEA1)", func(ue int) string { return c20protect(ue, 1, 1) }},
 		{"NASEncode(NIA2,NEA2)", func(ue int) string { return c20protect(ue, 2, 2) }},
